@@ -40,6 +40,11 @@ T('C13', 'exhaustive enumeration of every contiguous sub-range request (as grid 
   'Bounded exhaustive model checking by differential execution: for each of the 45 contiguous sub-ranges of the 10-point coarsening of the finest native grid, every grid configuration, both cutoff settings, transmission and emission, three magnitudes, a fresh model is run restricted and a fresh model full; values at common wavenumbers must agree (only the exp(-10) licence where the full run is saturated on the restricted range), and the two results binned to the observation must agree; at the opacity level every contiguous request of own points must be returned unchanged and every foreign request must lie between the two neighbouring native values of the full grid, for cross-section and k-table layouts.',
   'observation widths are the mid-point implied widths (stated condition holds by construction); emission letters stay below the clamp; numba/numpy trusted; small-scope hypothesis')
 
+T('C15',
+  'bounded exhaustive enumeration (product space E1) of generated .par files over the documented interface; constructor spies on the real classes; differential CLI-vs-library execution',
+  'Bounded exhaustive model checking over programs (input files): every documented built-in selector (30) x every constructor key x value letters (<=1 key quick, all key pairs thorough), all error letters (unknown selector / unknown key), every mixin+base composite, a custom class per section, priors/fitting/derive/binning sections, and the command-line program (-i -S -o) against library-assembled models for the model x binning full product - all executed on the real parser, factory and main(); the documented interface is transcribed in mc/docspec.py and cross-checked against the .rst files of the working tree on every run.',
+  'plugin components (ace, BHMie) and samplers not installed (polychord, dypolychord) out of scope; documented-vs-code key/default/class-name mismatches are reported as notes only; PhoenixStar/Taurex/Iraclis/lightcurve constructors checked up to argument arrival (no data files); retrieval (-R) path of main() not run; numba/numpy/configobj/h5py trusted')
+
 
 def main():
     props = [json.loads(l) for l in open(os.path.join(VERIF, 'properties.jsonl'))]
